@@ -85,7 +85,7 @@ def make_input(prog, idx, workdir, rng):
             (d / "b.bld").write_text("[ molecule ]\nM 0 2\n[ sphere ]\nRA 1 3 in 2.5 2.5 2.5 2.4\n")
             kw["build"] = [d / "b.bld"]
         elif idx == 2:
-            kw["ligands"] = ["W#2-WAT#1:M#0-RA#1"]
+            kw["ligands"] = [["M#0-RA#1", "W#2"]]
         elif idx == 3:
             (d / "in.gro").write_text("x\n1\n    1RA       X    1   1.000   1.000   1.000\n   5.00000   5.00000   5.00000\n")
             kw["coordpath"] = d / "in.gro"
